@@ -21,6 +21,24 @@
 //! Known shapes are isolated in their own sub-checks: `ml-empty.*` (empty term
 //! list, `Default`), `ml-add.*` (sum of Miller-loop results), `gt.decode`
 //! (non-members offered to the `Gt` decoder).
+//!
+//! Findings on the unchanged tree (isolated in those sub-checks):
+//! * bn256: `MillerLoopResult` is `Fq12` itself, so `+` is field addition, not
+//!   the product of Miller-loop values (`bn256:MillerLoopResult:add`,
+//!   `bn256:multi_miller_loop:empty:add`), and `Default` is 0, on which
+//!   `final_exponentiation` panics (`bn256:MillerLoopResult:default:panic`);
+//! * bls12_381: the serde decoder of `Gt` accepts any Fp12 element, including 0
+//!   (`bls12_381:Gt:deserialize:accepts-non-member`).
+//!
+//! Sensitivity (mutants in a scratch worktree, quick tier, seed 1; all caught):
+//! * N1 `Bls12::multi_miller_loop`: identity term resets the accumulator and is
+//!   skipped -> `bls12_381:multi_miller_loop`, `:order`, `MillerLoopResult:add`;
+//! * N2 bls `Gt * Fq` with a 254-bit scalar loop (`skip(2)`) ->
+//!   `bls12_381:Gt:Fp12:mul`, `pairing:bilinear`, `pairing:dlog`, `Gt:random`;
+//! * N3 bn256 `multi_miller_loop` without the last (-Q2) addition step ->
+//!   `bn256:pairing:additive-G1`, `multi_miller_loop:dlog`, `Gt:add`;
+//! * N4 bn256 `Gt * Fr` dropping the two top scalar bits (`skip(3)`) ->
+//!   `bn256:pairing:bilinear`, `pairing:dlog`, `Gt:random`.
 
 use ff::{Field, PrimeField};
 use group::{prime::PrimeCurveAffine, Curve, Group};
@@ -494,7 +512,7 @@ fn engine_suite<E: MultiMillerLoop>(p: &Prop, eng: &Eng<E>, scale: u32) {
     p.sub(
         &format!("pairing.bilinear.{name}"),
         "scalars a,b in {0,1,2,r-1,(r-1)/2,small,random} x P in G1, Q in G2 from {identity, generator, -generator, k*G with known k, Group::random}: e(kG1,lG2) = (kl) e(G1,G2); e(aP,bQ) = (ab) e(P,Q) = e(abP,Q) = e(P,abQ); identity iff an argument is the identity; additivity in both arguments; negation; every entry point (Engine::pairing, free fn, pairing_with both ways, multi_miller_loop of one prepared term, both affine conversions) agrees; non-trivial = a boundary scalar {0,1,r-1} or an identity point",
-        p.tier.pick(9_000, 300_000) / scale,
+        p.tier.pick(9_000, 240_000) / scale,
         16,
         bi_strategy,
         |c| bilinear_check(eng, c),
@@ -532,7 +550,7 @@ fn engine_suite<E: MultiMillerLoop>(p: &Prop, eng: &Eng<E>, scale: u32) {
     p.sub(
         &format!("gt.group.{name}"),
         "g = e(xG1,G2), h = e(G1,yG2), scalar a, with x,y,a in the scalar classes: +, -, neg, double, scalar multiplication, identity, equality, Sum, assign forms against exponent arithmetic in Fr through fresh pairings; (r-1) g = -g (order r); distributivity, associativity; Gt::generator() = e(G1,G2) where implemented; Gt::random is of order dividing r; non-trivial = a boundary scalar",
-        p.tier.pick(2_400, 80_000) / scale,
+        p.tier.pick(2_400, 60_000) / scale,
         16,
         || (0u8..7, 0u8..7, 0u8..7, any::<u64>()).prop_map(|(x, y, a, seed)| GtCase { x, y, a, seed }).boxed(),
         |c| gt_check(eng, c),
